@@ -180,6 +180,7 @@ PROPS = {
         "modes": [
             {"mode": "full", "quick": {"runs": 24000}, "thorough": {"runs": 1200000}},
             {"mode": "short", "quick": {"runs": 16000}, "thorough": {"runs": 800000}},
+            {"mode": "enum", "quick": {"runs": 71000}, "thorough": {"runs": 2900000}},
         ],
         "rule": ("mode full: 4-27 fresh commands (prewrite optimistic/pessimistic with put/del/lock/insert/check-not-exists, pessimistic lock/rollback, commit, batch rollback, cleanup, "
                  "check-txn-status, heart-beat, resolve single/batch incl. through the RPC handler, scan-lock incl. through the RPC handler with range and limit, GC, get, batch get, scan, reverse scan), "
